@@ -142,6 +142,39 @@ def r3(cx):
                  "a failed %s leaves no sticky error and keeps appending to the same WAL segment: the record of the failed "
                  "transaction (or a half-buffered one) stays in the log and is replayed by the next recovery, and later acknowledged "
                  "commits are appended behind it" % what)
+        if what.startswith("WAL") and inner and not sticky:
+            # The gate at the top of commit() is read BEFORE write_mutex: a committer that passed it while the failing commit
+            # was still inside the critical section enters next and appends behind the torn record.  The sticky error has to be
+            # consulted again inside the serialized section: in commit() between the lock and env.write, or in the
+            # implementation before it appends.
+            lock = [x for x in b.calls if "write_mutex" in origin_of_operand(b, x.args[0]).field_names()
+                    and "lock" in x.primary.split("::")[-1]] if b.calls else []
+            again = False
+            if lock:
+                Lb = set(b.blocks_of(lock))
+                gates = [x for x in b.calls if cx.f.call_may_reach(x, {"BackgroundErrorHandler::check_error"}) or
+                         x.primary.endswith("check_background_error")]
+                for gcall in gates:
+                    if gcall.bb in b.reachable_after(list(Lb)) and b.set_dominates({gcall.bb}, c.bb) and gcall.bb != c.bb:
+                        again = True
+            where_ = c.where()
+            for impl in cx.f.bodies_like(pat):
+                if not (impl.impl_trait and cx.f.may_reach(impl.id, "BackgroundErrorHandler::set_error")):
+                    continue
+                app = [x for x in impl.calls if x.bb in impl.live and cx.f.call_may_reach(x, {"Wal::append"})
+                       or x.primary.endswith("Wal::append")]
+                chk = [x for x in impl.calls if cx.f.call_may_reach(x, {"BackgroundErrorHandler::check_error"})
+                       or x.primary.endswith("BackgroundErrorHandler::check_error")]
+                cx.floor("append site in %s" % impl.id, len(app), 1)
+                Cb = set(impl.blocks_of(chk))
+                if chk and all(a.bb not in Cb and impl.set_dominates(Cb, a.bb) for a in app):
+                    again = True
+                where_ = impl.where()
+            cx.check(again, "the sticky error is consulted again inside the serialized section, before the next record is appended",
+                     "sticky-gate-not-rechecked|%s" % pat, where_,
+                     "the background-error gate is only read before write_mutex: a commit that passed it while another commit's WAL "
+                     "write was failing appends its record behind the torn one and is acknowledged, but recovery cuts the log at the "
+                     "torn record")
 
 
 @rule("C15", "C15.R4", "no storage error is dropped on the commit path")
